@@ -670,7 +670,39 @@ func c08R10(c *Ctx) {
 	n := 0
 	c.eachInstrLogical(fn, func(r instrRef) {
 		call, ok := r.I.(*ssa.Call)
-		if !ok || !strings.HasSuffix(calleeName(call.Common()), "schema.NewIntSchema") || len(call.Call.Args) < 2 {
+		if !ok {
+			return
+		}
+		loArg, hiArg := ssa.Value(nil), ssa.Value(nil)
+		if strings.HasSuffix(calleeName(call.Common()), "schema.NewIntSchema") && len(call.Call.Args) >= 2 {
+			loArg, hiArg = call.Call.Args[0], call.Call.Args[1]
+		} else if h := call.Common().StaticCallee(); h != nil && isRepoFn(h) && len(h.Blocks) > 0 {
+			// a range-schema helper (`intRangeSchema(lowest, highest)`): it hands two of its parameters to NewIntSchema
+			eachInstr(h, func(r2 instrRef) {
+				c2, ok := r2.I.(*ssa.Call)
+				if !ok || !strings.HasSuffix(calleeName(c2.Common()), "schema.NewIntSchema") || len(c2.Call.Args) < 2 {
+					return
+				}
+				strip := func(v ssa.Value) ssa.Value {
+					if pc, ok := v.(*ssa.Call); ok && strings.Contains(calleeName(pc.Common()), "schema.PointerTo") && len(pc.Call.Args) == 1 {
+						return pc.Call.Args[0]
+					}
+					return v
+				}
+				for pi, fp := range h.Params {
+					if pi >= len(call.Call.Args) {
+						continue
+					}
+					if strip(c2.Call.Args[0]) == ssa.Value(fp) {
+						loArg = call.Call.Args[pi]
+					}
+					if strip(c2.Call.Args[1]) == ssa.Value(fp) {
+						hiArg = call.Call.Args[pi]
+					}
+				}
+			})
+		}
+		if loArg == nil || hiArg == nil {
 			return
 		}
 		// the kinds on whose case this call sits
@@ -693,8 +725,8 @@ func c08R10(c *Ctx) {
 		}
 		sort.Slice(kinds, func(i, j int) bool { return kinds[i] < kinds[j] })
 		n++
-		lo, okLo := constArg(call.Call.Args[0])
-		hi, okHi := constArg(call.Call.Args[1])
+		lo, okLo := constArg(loArg)
+		hi, okHi := constArg(hiArg)
 		var nm []string
 		okAll := okLo && okHi
 		for _, k := range kinds {
